@@ -32,6 +32,8 @@ def evaluate(d, tier, checks_override):
     meta = {}
     if os.path.exists(os.path.join(d, "meta.json")):
         meta = json.load(open(os.path.join(d, "meta.json")))
+    if meta.get("superseded_by") and FAST:
+        return {"name": name, "checks": {}, "patch": "superseded by repository commit " + meta["superseded_by"], "superseded": True}
     checks = checks_override or meta.get("checks") or ([meta["property"]] if "property" in meta else re.findall(r"C\d\d", name)[:1])
     tmp = tempfile.mkdtemp(prefix="vfseed_")
     res = {"name": name, "checks": {}}
@@ -92,7 +94,7 @@ def main(argv):
     for d in dirs:
         res = evaluate(d, tier, checks)
         caught = [p for p, v in res["checks"].items() if v.startswith("exit1")]
-        verdict = "CAUGHT" if caught else "MISSED"
+        verdict = "SUPERSEDED" if res.get("superseded") else ("CAUGHT" if caught else "MISSED")
         print(f"{verdict} {res['name']}: patch={res.get('patch')} tests={res.get('tests')} demo(unchanged)={res.get('demo_unchanged')} demo(changed)={res.get('demo_changed')}")
         for p, v in res["checks"].items():
             print(f"    {p}: {v}")
